@@ -390,7 +390,8 @@ def judgeGo (cfg : Cfg) : Nat → String → String → Mode → Bool → List (
               let inGroup := (match mode with | .group _ => true | _ => false)
               if o.raw = obsSeries cfg b ls v ts st ex || o.raw = obsSeries cfg b ls v ts gst ex
                   || (inGroup || true) && o.raw = obsSeries { cfg with parseST := true } b ls v ts ost ex then none
-              else if collected && (o.raw = obsSeries cfg b ls v ts st [] || o.raw = obsSeries cfg b ls v ts gst []) && !ex.isEmpty then
+              else if collected && (o.raw = obsSeries cfg b ls v ts st [] || o.raw = obsSeries cfg b ls v ts gst []
+                  || o.raw = obsSeries { cfg with parseST := true } b ls v ts ost []) && !ex.isEmpty then
                 some s!"violation keep-classic-exemplars-lost op={k} series={b}"
               else if collected then some s!"violation keep-classic-changed op={k} series={b} got={o.raw}{tstr}"
               else
